@@ -729,11 +729,13 @@ func (e *ConcatExpression) Evaluate(ctx *Context, input system.Collection) (syst
 	}
 
 	// Convert empty collection to empty string
+	// (A fresh collection: appending to the operand would write into the spare
+	// capacity of a caller's environment-variable slice.)
 	if len(leftResult) == 0 {
-		leftResult = append(leftResult, system.String(""))
+		leftResult = system.Collection{system.String("")}
 	}
 	if len(rightResult) == 0 {
-		rightResult = append(rightResult, system.String(""))
+		rightResult = system.Collection{system.String("")}
 	}
 
 	if len(leftResult) > 1 || len(rightResult) > 1 {
